@@ -112,3 +112,27 @@ package layout
 //@     step band_test_decides: let dist = (regionType == Header ? (invertedCoords ? frag.Y - refMinY : refMaxY - (frag.Y + frag.Height)) : (invertedCoords ? refMaxY - (frag.Y + frag.Height) : frag.Y - refMinY)) in let band = (regionType == Header ? headerRegion : footerRegion) in (len(candidates) == prev(len(candidates)) + 1 <==> dist < band) && (len(candidates) == prev(len(candidates)) <==> !(dist < band))
 //@     step candidate_is_this_fragment_on_this_page: len(candidates) == prev(len(candidates)) + 1 ==> candidates[prev(len(candidates))].PageIndex == page.PageIndex && sameseq(candidates[prev(len(candidates))].Text, strings.TrimSpace(frag.Text)) && candidates[prev(len(candidates))].X == frag.X && candidates[prev(len(candidates))].Width == frag.Width
 //@     step earlier_candidates_kept: forall k int :: {candidates[k]} 0 <= k && k < prev(len(candidates)) ==> candidates[k] == prev(candidates)[k]
+
+// ---- C09: merging overlapping blocks conserves fragments ----
+//@ spec rec prefix func blocksum(bs []Block, n int) int = n <= 0 ? 0 : blocksum(bs, n - 1) + wsum(bs[n-1].Fragments, len(bs[n-1].Fragments))
+// weight of the blocks not yet consumed (used[k] false) among the first n
+//@ spec rec func unusedsum(bs []Block, used []bool, n int) int = n <= 0 ? 0 : unusedsum(bs, used, n - 1) + (used[n-1] ? 0 : wsum(bs[n-1].Fragments, len(bs[n-1].Fragments)))
+
+//@ func (*BlockDetector) mergeBlocks results (m)
+//@   property C09
+//@   flags nosafety
+//@   ensures fragments_of_both: wsum(m.Fragments, len(m.Fragments)) == wsum(b1.Fragments, len(b1.Fragments)) + wsum(b2.Fragments, len(b2.Fragments))
+
+// every input block ends up in exactly one output block: the outputs carry the weight of all inputs
+//@ func (*BlockDetector) mergeOverlappingBlocks results (res)
+//@   property C09
+//@   flags nosafety
+//@   ensures conserved: blocksum(res, len(res)) == blocksum(blocks, len(blocks))
+//@   loop 0:
+//@     invariant 0 <= i && i <= len(blocks) && len(used) == len(blocks)
+//@     invariant blocksum(merged, len(merged)) == blocksum(blocks, len(blocks)) - unusedsum(blocks, used, len(blocks)) + unusedsum(blocks, used, i)
+//@     decreases len(blocks) - i
+//@   loop 1:
+//@     invariant i + 1 <= j && j <= len(blocks) && len(used) == len(blocks) && !used[i] && same(merged, entry(merged))
+//@     invariant blocksum(merged, len(merged)) + wsum(current.Fragments, len(current.Fragments)) == blocksum(blocks, len(blocks)) - unusedsum(blocks, used, len(blocks)) + unusedsum(blocks, used, i + 1)
+//@     decreases len(blocks) - j
